@@ -468,6 +468,103 @@ func c01Identities(ts []*tree.Node) *core.Space {
 	}
 }
 
+// c01NilKeepsContainer: "a nil in B leaves a container of A in place" - also an empty one. The
+// canonical form of the other spaces equates nil and the empty list, so this clause is observed
+// directly: after the merge the setting is still a list (Child succeeds and IsArray holds, and Unpack
+// into interface{} yields an empty list, not nil) for every placement and every non-replacing policy.
+func c01NilKeepsContainer() *core.Space {
+	type place struct {
+		name string
+		a, b M
+		path []string // names (or #i for a list index) leading to the setting
+	}
+	places := []place{
+		{"top-level key", M{"k": L{}, "o": 1}, M{"k": nil}, []string{"k"}},
+		{"top-level key next to a non-empty list", M{"k": L{}, "j": L{"x"}}, M{"k": nil, "j": L{"y"}}, []string{"k"}},
+		{"nested in a dictionary", M{"d": M{"k": L{}, "o": 1}}, M{"d": M{"k": nil}}, []string{"d", "k"}},
+		{"two dictionaries deep", M{"d": M{"e": M{"k": L{}}}}, M{"d": M{"e": M{"k": nil, "n": 1}}}, []string{"d", "e", "k"}},
+		{"inside a list element", M{"l": L{M{"k": L{}}}}, M{"l": L{M{"k": nil}}}, []string{"l", "#0", "k"}},
+		{"an element of a list", M{"l": L{L{}, "x"}}, M{"l": L{nil, "y"}}, []string{"l", "#0"}},
+	}
+	pols := []tree.Policy{tree.Default, tree.Append, tree.Prepend}
+	reps := []string{"map", "config"}
+	radices := []int{len(places), len(pols), len(reps)}
+	return &core.Space{
+		Name: "nil-keeps-empty-container",
+		Size: product(radices...),
+		Text: func(i int) string {
+			d := mixedRadix(i, radices...)
+			return fmt.Sprintf("policy=%s A=%v B=%v (%s, B given as %s)", pols[d[1]], places[d[0]].a, places[d[0]].b, places[d[0]].name, reps[d[2]])
+		},
+		Exec: func(i int) core.Result {
+			d := mixedRadix(i, radices...)
+			pl, p := places[d[0]], pols[d[1]]
+			// only index-wise merging keeps positions inside lists comparable
+			if p != tree.Default && (pl.name == "inside a list element" || pl.name == "an element of a list") {
+				return core.Result{Skipped: true}
+			}
+			var res core.Result
+			pi := core.Guard(func() {
+				a, err := ucfg.NewFrom(pl.a)
+				if err != nil {
+					panic("harness: " + err.Error())
+				}
+				var src interface{} = pl.b
+				if d[2] == 1 {
+					if src, err = ucfg.NewFrom(pl.b); err != nil {
+						panic("harness: " + err.Error())
+					}
+				}
+				if err := a.Merge(src, policyOpt[p]...); err != nil {
+					res = core.Fail("nilkeeps", "ERROR "+p.String(), err.Error())
+					return
+				}
+				node := a
+				for _, seg := range pl.path {
+					if seg[0] == '#' {
+						node, err = node.Child("", int(seg[1]-'0'))
+					} else {
+						node, err = node.Child(seg, -1)
+					}
+					if err != nil {
+						res = core.Fail("nilkeeps", "CONTAINER-REPLACED-BY-NIL "+p.String(), fmt.Sprintf("%s: the empty list of A is no longer a container after the merge: %v", pl.name, err))
+						return
+					}
+				}
+				if !node.IsArray() {
+					res = core.Fail("nilkeeps", "CONTAINER-REPLACED-BY-NIL "+p.String(), fmt.Sprintf("%s: IsArray()=false after the merge", pl.name))
+					return
+				}
+				var all interface{}
+				var m map[string]interface{}
+				if err := a.Unpack(&m); err != nil {
+					res = core.Fail("nilkeeps", "ERROR "+p.String(), err.Error())
+					return
+				}
+				all = m
+				for _, seg := range pl.path {
+					switch c := all.(type) {
+					case map[string]interface{}:
+						all = c[seg]
+					case []interface{}:
+						all = c[int(seg[1]-'0')]
+					}
+				}
+				if l, ok := all.([]interface{}); !ok || l == nil || len(l) != 0 {
+					res = core.Fail("nilkeeps", "CONTAINER-REPLACED-BY-NIL "+p.String(), fmt.Sprintf("%s: unpacks as %#v, expected an empty list", pl.name, all))
+					return
+				}
+				res.Nontrivial = true
+				res.Outcome = p.String()
+			})
+			if pi != nil {
+				return apiPanic("nilkeeps", pi)
+			}
+			return res
+		},
+	}
+}
+
 func init() {
 	core.Register(&core.Check{
 		ID:    "C01",
@@ -485,7 +582,8 @@ func init() {
 			if tier == "thorough" {
 				full := cachedEnum(2, kAB, 2)
 				return []*core.Space{
-					c01Pairs("pairs-T(2,{a,b},2)", full, []mergeRep{repMap}, true),
+					c01NilKeepsContainer(),
+				c01Pairs("pairs-T(2,{a,b},2)", full, []mergeRep{repMap}, true),
 					c01Pairs("pairs-reps", small, []mergeRep{repStruct, repConfig}, false),
 					c01Pairs("pairs-spines-depth4", spines(3), []mergeRep{repMap}, false),
 					c01Pairs("pairs-mixed", mixedTrees(true), []mergeRep{repMap}, true),
@@ -495,6 +593,7 @@ func init() {
 				}
 			}
 			return []*core.Space{
+				c01NilKeepsContainer(),
 				c01Pairs("pairs-T(2,{a},2)+T(1,{a,b},2)", small, []mergeRep{repMap}, true),
 				c01Pairs("pairs-reps", t1, []mergeRep{repStruct, repConfig}, false),
 				c01Pairs("pairs-spines-depth3", spines(2), []mergeRep{repMap}, false),
